@@ -155,6 +155,6 @@ Fixpoint drain (fuel : nat) (s : st) : str :=
 Definition run_c05 (x : sx) : sx :=
   let reads := map as_str (as_list (nth_sx 1 x)) in
   match as_N (nth_sx 0 x) with
-  | 0 => L (run_cops (4 + length reads) (map dec_cop (as_list (nth_sx 2 x))) (init reads) [])
+  | 0 => L (run_cops (4 + length (concat reads)) (map dec_cop (as_list (nth_sx 2 x))) (init reads) [])
   | _ => of_str (drain (S (length (concat reads))) (init reads))
   end.
